@@ -9,10 +9,15 @@ ovars == <<l, acked, s3seg, s3idx, storeNext, hwReg, nextReg, rfail, up, restart
 Range(s) == {s[i] : i \in DOMAIN s}
 S3Put(s, o) == {x \in s : x.base # o.base} \cup {o}
 LogEvs == {"Append", "FlushWait", "FlushPrepare", "PubRead", "FlushFail", "FlushCommit", "Restore"}
+\* direct PartitionLog.Read results and the consumer's Fetch results (a Fetch that returns nothing at or above its own
+\* high watermark is "empty", which the read predicates treat like out-of-range)
 ReadsOf(e) == IF e.ev = "Grid"
               THEN {[o |-> r.o, mb |-> r.mb, hw |-> r.hw, kind |-> r.kind, first |-> r.first, starts |-> Range(r.starts),
-                     aligned |-> r.aligned, intact |-> r.intact] : r \in Range(e.reads)}
+                     aligned |-> r.aligned, intact |-> r.intact] : r \in Range(e.reads) \cup Range(e.fetches)}
               ELSE {}
+MaxShown(e) == IF e.ev = "Grid" /\ e.fetches # <<>>
+               THEN LET H == {f.hw : f \in Range(e.fetches)} IN CHOOSE m \in H : \A x \in H : x <= m
+               ELSE -1
 RefOf(e) == IF e.ev = "Grid" THEN {[base |-> x[1], cnt |-> x[2]] : x \in Range(e.ref)} ELSE {}
 P(a, sg, si, sn, hr, nr, rf, u, rs, mn, hm, rf2, rd) == INSTANCE LogProps WITH
     acked <- a, s3seg <- sg, s3idx <- si, storeNext <- sn, hwRegressed <- hr, nextRegressed <- nr, rfail <- rf, up <- u, restarted <- rs,
@@ -46,7 +51,8 @@ Step ==
         /\ s3idx' = IF reset THEN {} ELSE IF e.ev = "PutIndex" /\ e.ok THEN s3idx \cup {e.base} ELSE s3idx
         /\ storeNext' = IF reset THEN 0 ELSE IF e.ev = "UpdateOffsets" THEN e.new ELSE storeNext
         /\ hwReg' = IF reset THEN FALSE ELSE IF e.ev = "UpdateOffsets" THEN (hwReg \/ e.new < e.prev) ELSE hwReg
-        /\ hwMax' = IF reset THEN 0 ELSE IF e.ev = "UpdateOffsets" /\ e.new > hwMax THEN e.new ELSE hwMax
+        /\ hwMax' = IF reset THEN 0 ELSE IF e.ev = "UpdateOffsets" /\ e.new > hwMax THEN e.new
+                     ELSE IF MaxShown(e) > hwMax THEN MaxShown(e) ELSE hwMax   \* a high watermark reported to a consumer counts as shown
         /\ up' = IF reset THEN TRUE ELSE IF e.ev = "Crash" THEN FALSE ELSE IF e.ev = "Restart" THEN e.ok ELSE up
         /\ restarted' = IF reset THEN FALSE ELSE IF e.ev = "Restart" THEN TRUE ELSE restarted
         /\ rfail' = IF reset THEN FALSE ELSE IF e.ev = "Restart" THEN ~e.ok ELSE rfail
